@@ -3,6 +3,7 @@
 use crate::dto::{GenCx, Purpose, Tree, XmlCodec, diff, xml_codecs};
 use crate::engine::{Case, CaseResult, Runner, truncate};
 use crate::props::c02::normalize;
+use crate::oracle_xml::XmlVerdict;
 use crate::refimpl::xmlcanon::{self, Elem, Node, Style};
 
 use serde_json::json;
@@ -290,110 +291,25 @@ fn mutate(c: &mut Case<'_>, b: &Base) -> (String, String) {
 }
 
 fn retraction(c: &mut Case<'_>, name: &str, codec: &XmlCodec, class: &str, doc: &str) -> CaseResult {
-    let Ok((_tree, reenc)) = (codec.decode)(doc.as_bytes()) else {
-        c.label(format!("refused:{class}"));
-        return Ok(());
-    };
-    c.label(format!("accepted:{class}"));
-    if class == "doctype" {
-        // a DOCTYPE is well-formed XML; the decoder ignores it (entities it declares are refused when used): don't-care
-        return Ok(());
-    }
-    // accepted: the document must be well-formed and fully accounted for by the accepted value
-    let parsed = match xmlcanon::parse(doc) {
-        Ok(p) => p,
-        Err(e) => {
-            // classify by repairing the known leniencies one after the other
-            let has_elem = {
-                // outside CDATA sections
-                let mut t = doc.to_owned();
-                while let Some(a) = t.find("<![CDATA[") {
-                    let b = t[a..].find("]]>").map_or(t.len(), |i| a + i + 3);
-                    t.replace_range(a..b, "");
-                }
-                t.as_bytes().windows(2).any(|w| w[0] == b'<' && w[1].is_ascii_alphabetic())
-            };
-            let first_lt = doc.find('<').unwrap_or(doc.len());
-            let lead = !doc[..first_lt].trim().is_empty();
-            // the shortest prefix (from the first '<') that is a complete well-formed document, if any
-            let complete = doc[first_lt..].match_indices('>').map(|(i, _)| first_lt + i + 1).find(|&end| xmlcanon::parse(&doc[first_lt..end]).is_ok());
-            let (core, trail) = match complete {
-                Some(end) => {
-                    // tail with comments removed
-                    let mut tail = doc[end..].to_owned();
-                    while let (Some(a), Some(b)) = (tail.find("<!--"), tail.find("-->")) {
-                        if b < a {
-                            break;
-                        }
-                        tail.replace_range(a..b + 3, "");
-                    }
-                    (&doc[first_lt..end], !tail.trim().is_empty() && !tail.contains('<'))
-                }
-                None => (&doc[first_lt..], false),
-            };
-            let core_err = xmlcanon::parse(core).err();
-            let kind_of = |e: &str| -> String { e.split(" at ").next().unwrap_or("syntax").chars().map(|ch| if ch.is_ascii_alphanumeric() { ch } else { '-' }).collect() };
-            let sig = if e.contains("no root element") || !has_elem || name == "GetBucketLocationOutput" {
-                // (the hand-written decoder of GetBucketLocationOutput does not anchor a root element at all: one root cause)
-                format!("accepts-malformed:no-root:{name}")
-            } else if lead {
-                "accepts-malformed:text-before-root".to_owned()
-            } else if trail && core_err.is_none() {
-                "trailing-text-accepted".to_owned()
-            } else {
-                format!("accepts-malformed:{}", kind_of(core_err.as_deref().unwrap_or(&e)))
-            };
-            return Err(c.fail(sig, format!("{name}: document accepted although not well-formed ({e}): {}", truncate(doc, 500))));
+    match crate::oracle_xml::accepted_document_check(name, codec, class, doc) {
+        XmlVerdict::Refused => {
+            c.label(format!("refused:{class}"));
+            Ok(())
         }
-    };
-    let reenc_text = String::from_utf8_lossy(&reenc).into_owned();
-    let reparsed = xmlcanon::parse(&reenc_text).map_err(|e| c.fail(format!("encode-not-well-formed:{name}"), format!("{e}: {reenc_text}")))?;
-    if let Some(d) = xmlcanon::canon_diff(&xmlcanon::canon(&parsed), &xmlcanon::canon(&reparsed)) {
-        if let xmlcanon::CanonDiff::Leaf { name: leaf, doc_text: text, re_text } = &d {
-          if re_text.is_empty() {
-            // Is that element text-bearing at all? Put a marker there and see whether the codec keeps it.
-            // If not, the element has an element-only type whose mixed content the decoder ignores (stated don't-care).
-            let mut probe = parsed.clone();
-            if replace_leaf_text(&mut probe, leaf, text, "Zq9Marker") {
-                let pdoc = xmlcanon::render(&probe, &Style::default());
-                if let Ok((_, re2)) = (codec.decode)(pdoc.as_bytes()) {
-                    if !String::from_utf8_lossy(&re2).contains("Zq9Marker") {
-                        c.label("dont-care:mixed-content-ignored");
-                        return Ok(());
-                    }
-                }
-            }
-          }
+        XmlVerdict::Accepted => {
+            c.label(format!("accepted:{class}"));
+            Ok(())
         }
-        let sig = if matches!(&d, xmlcanon::CanonDiff::Leaf { doc_text, re_text, .. } if lenient_int(doc_text, re_text)) { "lenient-int-content".to_owned() } else { format!("retraction:{class}") };
-        return Err(c.fail(sig, format!("{name} ({class}): accepted document is not accounted for by the accepted value: {d}\ndocument:   {}\nre-encoded: {}", truncate(doc, 500), truncate(&reenc_text, 500))));
-    }
-    Ok(())
-}
-
-fn replace_leaf_text(e: &mut Elem, name: &str, text: &str, marker: &str) -> bool {
-    let is_leaf = !e.children.iter().any(|n| matches!(n, Node::Elem(_)));
-    if is_leaf && e.name == name && e.text() == text {
-        e.children = vec![Node::Text(marker.to_owned())];
-        return true;
-    }
-    for n in &mut e.children {
-        if let Node::Elem(ch) = n {
-            if replace_leaf_text(ch, name, text, marker) {
-                return true;
-            }
+        XmlVerdict::DontCare(what) => {
+            c.label(format!("accepted:{class}"));
+            c.label(format!("dont-care:{what}"));
+            Ok(())
+        }
+        XmlVerdict::Violation { sig, msg } => {
+            c.label(format!("accepted:{class}"));
+            Err(c.fail(sig, msg))
         }
     }
-    false
-}
-
-/// does the leaf difference look like "numeric prefix accepted"
-fn lenient_int(doc: &str, re: &str) -> bool {
-    let re_digits = re.trim_start_matches('-');
-    !re_digits.is_empty()
-        && re_digits.bytes().all(|b| b.is_ascii_digit())
-        && doc != re
-        && (doc.trim_start_matches(['+', '-', '0']).starts_with(re_digits.trim_start_matches('0')) || re_digits == "0")
 }
 
 fn mutation(c: &mut Case<'_>) -> CaseResult {
